@@ -7,7 +7,7 @@ CFG = {
 "technique": "bounded-exhaustive enumeration of small triangle meshes and of well-formed STL byte strings, executed on the real writer/reader and compared with an independent 80+4+50n container codec and a per-corner reference",
 "jobs": [{"variant": "plain-c07", "id": "C07"}],
 "budget": {"quick": 60, "thorough": 600},
-"level_text": "(a) every triangle mesh with <=4 vertices and <=2 triangles (all index arrays: shared, repeated, degenerate, unreferenced vertices; every assignment of vertices to a 3-point palette plus one all-distinct float32-inexact assignment; 363,141 meshes; thorough adds all 3^9 three-triangle meshes over 3 vertices) x {no normals, unit normals, non-unit normals} is written with stl.WriteMesh; the size law 84+50n, the count field, the float32 corner positions in order and the stored facet normal are checked by an independent record parser, then stl.ReadMesh must return the same n triangles in order with float32-rounded positions and the expected facet normal. (b) every well-formed STL byte string with n<=2 records over 4 normals x 4^3 vertex triples x attribute word {0,1,0xFFFF} (768 records; thorough 1500 incl. -0, a denormal, 3.5e37) x 3 headers (zero, text beginning with 'solid', bytes up to 0xFF) goes through stl.Read (field by field), stl.Write (count+records byte-identical) and stl.ReadMesh->stl.WriteMesh (positions bit-identical, normals as stated). Exhaustive within these bounds.",
+"level_text": "(a) every triangle mesh with <=4 vertices and <=2 triangles (all index arrays: shared, repeated, degenerate, unreferenced vertices; every assignment of vertices to a 3-point palette plus one all-distinct float32-inexact assignment; 363,141 meshes; thorough adds every three-triangle mesh: all 3^9 index arrays over 3 vertices with every palette assignment and all 4^9 index arrays over 4 vertices with all-distinct and all-coincident positions) x {no normals, unit normals, non-unit normals} is written with stl.WriteMesh; the size law 84+50n, the count field, the float32 corner positions in order and the stored facet normal are checked by an independent record parser, then stl.ReadMesh must return the same n triangles in order with float32-rounded positions and the expected facet normal. (b) every well-formed STL byte string with n<=2 records over 4 normals x 4^3 vertex triples x attribute word {0,1,0xFFFF} (768 records; thorough 1500 incl. -0, a denormal, 3.5e37) x 3 headers (zero, text beginning with 'solid', bytes up to 0xFF) goes through stl.Read (field by field), stl.Write (count+records byte-identical) and stl.ReadMesh->stl.WriteMesh (positions bit-identical, normals as stated). Exhaustive within these bounds.",
 "level_note": "Trusted: the container codec in harness/props/c07/refstl.go and the expected-triangle derivation from the replayable Spec. Meshes without a Position attribute and meshes whose corner normals cancel are run and reported, not alarmed. A mesh without stored normals may legitimately store either a zero or the geometric facet normal; both are accepted. More than 2 records per byte string / more than 2 (thorough: 3) triangles per mesh are not explored.",
 "rule": "every member of the stated scopes is executed; a case is non-trivial when it has at least one triangle/record; distinct by (mesh spec, normal mode) resp. (header, record ids)",
 "assumptions": COMMON_ASSUME + ["record layout behaviour depends on counts and orders, not magnitudes: <=2 (3) triangles over <=4 vertices exhibit every index pattern class"],
